@@ -532,7 +532,7 @@ def slim(c):
 def run_cases(ctx, cases, chunk=40):
     """one batch; when the driver dies, re-run in chunks and isolate the crashing cases"""
     inp = [to_input(c) for c in cases]
-    outs = run_driver(ctx, "C12", "\n".join(inp) + "\n", timeout=1500)
+    outs = run_driver(ctx, "C12", [l_ + "\n" for l_ in inp], timeout=1500)
     if outs is not None and len(outs) == len(cases) and getattr(ctx, "driver_rc", 0) == 0:
         return outs
     ctx.log("driver batch failed (rc=%s); isolating" % getattr(ctx, "driver_rc", "?"))
